@@ -6,6 +6,7 @@ import (
 	"go/types"
 	"sort"
 	"strings"
+	"sync"
 
 	"golang.org/x/tools/go/ssa"
 )
@@ -65,6 +66,7 @@ type Enc struct {
 	stepBlk    []*ssa.BasicBlock // origin block (top-level function) of each step; nil = always relevant
 	curBlk     *ssa.BasicBlock
 	anc        map[*ssa.BasicBlock]map[*ssa.BasicBlock]bool
+	ancMu      sync.Mutex
 }
 
 type modelVar struct {
@@ -323,6 +325,8 @@ func (e *Enc) relevant(from, at *ssa.BasicBlock) bool {
 	if from == nil || at == nil || from == at {
 		return true
 	}
+	e.ancMu.Lock()
+	defer e.ancMu.Unlock()
 	if e.anc == nil {
 		e.anc = map[*ssa.BasicBlock]map[*ssa.BasicBlock]bool{}
 	}
